@@ -49,6 +49,8 @@ def pool(M, ctx):
            ("lprism", M.distort(M.l_prism(), rng, **mild)),
            ("torus", M.distort(M.torus(6, 4), rng, **mild)),
            ("two_solids", M.distort(M.two_solids(), rng, **mild))]
+    # the identities do not know units: a physically tiny copy (element distances ~1e-6) is in the core pool
+    out.append(("cube|s1e-05", M.scale(out[2][1], 1e-5)))
     if not ctx.quick:
         out += [("icosa", M.distort(M.icosahedron(), rng, **mild)), ("voxring", M.voxel_ring()), ("shell", M.nested_shell()),
                 ("dented", M.distort(M.dented_block(), rng, **mild)), ("octa_r2", M.distort(M.refine(M.octahedron(), 2), rng, **mild)),
@@ -57,8 +59,8 @@ def pool(M, ctx):
                 ("tetra_strong", M.distort(M.tetrahedron(), rng)), ("cube_strong", M.distort(M.cube(), rng)),
                 ("torus_strong", M.distort(M.torus(6, 4), rng))]
         base = list(out)
-        for name, m in base[:6]:
-            for s, t in ((1e-3, 0.0), (1e3, 0.0), (1.0, 1e3)):
+        for name, m in base[:6]:   # (base[6] is the tiny cube of the core pool)
+            for s, t in ((1e-5, 0.0), (1e5, 0.0), (1.0, 1e3)):
                 mm = M.scale(m, s)
                 mm.V = mm.V + t * mm.diameter() * np.array([[0.3], [-0.5], [0.8]])
                 out.append(("%s|s%g|t%g" % (name, s, t), mm))
